@@ -232,16 +232,21 @@ payload_plausible(RPFrame *f)
 {
     size_t actualsize = f->payload.size;
     if (BIT_ISSET(f->header.options, RP_OPT_WORD_SIZE_16)) {
+        if ((actualsize % 2u) != 0u) {
+            /* Half a word cannot be part of any valid payload. */
+            return -EFAULT;
+        }
         actualsize /= 2;
     }
     switch (f->header.type) {
     case RP_FRAME_READ_REQUEST:
         /* FALLTHROUGH */
-    case RP_FRAME_WRITE_RESPONSE:
-        /* FALLTHROUGH */
     case RP_FRAME_META:
         return (actualsize == 0) ? 0 : -EFAULT;
     case RP_FRAME_READ_RESPONSE:
+        /* FALLTHROUGH */
+    case RP_FRAME_WRITE_RESPONSE:
+        /* Write responses carry payload with some of the error codes. */
         /* FALLTHROUGH */
     case RP_FRAME_WRITE_REQUEST:
         return (f->header.blocksize == actualsize) ? 0 : -EFAULT;
